@@ -304,7 +304,25 @@ func D@(a int) int {
 	return r
 }
 `, false)
-	ss.add("defer", "panic-in-deferred-after-recover", "", `
+	ss.add("defer", "two-recovering-defers", "panic-caught-by-a-later-defer-returns-no-value", `
+func rec@() { recover() }
+
+func body@(a int) int {
+	defer rec@()
+	defer rec@()
+	if a > 0 {
+		panic("p")
+	}
+	return a - 5
+}
+
+func D@(a int) int {
+	r := body@(a)
+	r = r*10 + 1
+	return r
+}
+`, false)
+	ss.add("defer", "panic-in-deferred-after-recover", "panic-caught-by-a-later-defer-returns-no-value", `
 var g@ int
 
 func body@(a int) int {
